@@ -208,7 +208,22 @@ pub fn run(cfg: &Cfg, rep: &mut Report) {
     let (out, samples) = run_sampled(flavor, &pipe, policy, late, seed);
     for n in pipe.chain.api_names() {
       rep.set("operators_covered", n);
+      let kind = match n {
+        "from_iter" | "of" | "of_fn" | "of_option" | "of_result" | "start" | "empty" | "never" | "throw" | "repeat" => "unit ()",
+        "subject" | "create" => "Subscriber",
+        "merge" | "zip" | "combine_latest" | "with_latest_from" | "take_until" | "skip_until" | "sample" | "buffer" | "debounce" | "throttle" | "throttle_time" | "buffer_with_time" | "buffer_with_count_and_time" => "ZipSubscription",
+        "delay" | "observe_on" | "merge_all" | "concat_all" | "flat_map" | "concat_map" | "flatten" => "MultiSubscription",
+        "interval" | "interval_at" | "timer" | "timer_at" | "from_future" | "from_future_result" | "from_stream" | "from_stream_result" => "TaskHandle<NormalReturn>",
+        "subscribe_on" | "delay_subscription" => "TaskHandle<SubscribeReturn>",
+        "share" => "RefCountSubscription",
+        "finalize" => "FinalizerSubscription",
+        _ => "",
+      };
+      if !kind.is_empty() {
+        rep.set("subscription_types_covered", kind);
+      }
     }
+    rep.set("subscription_types_covered", if flavor == Flavor::Threads { "BoxSubscriptionThreads" } else { "BoxSubscription" });
     if let Ok(run) = &out {
       rep.events += samples.len() as u64 + run.evs.len() as u64;
       let saw_false = samples.iter().any(|(_, c)| !*c);
@@ -235,5 +250,113 @@ pub fn run(cfg: &Cfg, rep: &mut Report) {
     } else {
       rep.sample_some(7027, || json!({"case": id, "chain": pipe.chain.show(), "is_closed_samples": samples.iter().map(|(_, c)| *c).collect::<Vec<_>>()}));
     }
+  }
+
+  // (c) the small subscription types, driven directly
+  if cfg.shard == 0 && cfg.only_case.is_none() {
+    direct_battery(rep);
+  }
+}
+
+/// child with a controllable closed flag that counts its unsubscriptions
+struct Child {
+  id: u32,
+  log: Log,
+  closed: std::rc::Rc<std::cell::Cell<bool>>,
+}
+impl Subscription for Child {
+  fn unsubscribe(self) {
+    self.closed.set(true);
+    self.log.mark(self.id, "child_unsub", 0);
+  }
+  fn is_closed(&self) -> bool {
+    self.closed.get()
+  }
+}
+
+fn direct_battery(rep: &mut Report) {
+  use rxrust::rc::MutRc;
+  use std::cell::Cell;
+  use std::rc::Rc;
+  let mut fail = |rep: &mut Report, kind: &str, ty: &str, why: String| {
+    rep.violation(kind, ty, &format!("direct:{}", ty), json!({"why": why}));
+  };
+  for (ca, cb) in [(false, false), (false, true), (true, false), (true, true)] {
+    rep.evaluations += 1;
+    rep.count("direct_subscription_cases", 1);
+    let log = Log::new();
+    let (fa, fb) = (Rc::new(Cell::new(ca)), Rc::new(Cell::new(cb)));
+    let z = ZipSubscription::new(Child { id: 1, log: log.clone(), closed: fa.clone() }, Child { id: 2, log: log.clone(), closed: fb.clone() });
+    rep.set("subscription_types_covered", "ZipSubscription");
+    // closed only if nothing can come through either half
+    if z.is_closed() && !(ca && cb) {
+      fail(rep, "closed_while_a_half_is_open", "ZipSubscription", format!("is_closed()==true with halves closed=({}, {})", ca, cb));
+    }
+    z.unsubscribe();
+    if log.marks(1, "child_unsub").len() != 1 || log.marks(2, "child_unsub").len() != 1 {
+      fail(rep, "child_not_unsubscribed_once", "ZipSubscription", "unsubscribe() must unsubscribe both halves exactly once".into());
+    }
+    rep.events += log.len() as u64;
+  }
+  {
+    rep.evaluations += 1;
+    rep.count("direct_subscription_cases", 1);
+    rep.set("subscription_types_covered", "SubscriptionGuard");
+    let log = Log::new();
+    let f = Rc::new(Cell::new(false));
+    {
+      let _g = Child { id: 1, log: log.clone(), closed: f.clone() }.unsubscribe_when_dropped();
+      if !log.marks(1, "child_unsub").is_empty() {
+        fail(rep, "guard_unsubscribed_early", "SubscriptionGuard", "unsubscribed before the guard was dropped".into());
+      }
+    }
+    if log.marks(1, "child_unsub").len() != 1 {
+      fail(rep, "guard_did_not_unsubscribe", "SubscriptionGuard", "dropping the guard must unsubscribe exactly once".into());
+    }
+    rep.events += log.len() as u64;
+  }
+  {
+    rep.evaluations += 1;
+    rep.count("direct_subscription_cases", 1);
+    rep.set("subscription_types_covered", "MutRc<Option<S>>");
+    let log = Log::new();
+    let f = Rc::new(Cell::new(false));
+    let h1: MutRc<Option<Child>> = MutRc::own(Some(Child { id: 1, log: log.clone(), closed: f }));
+    let h2 = h1.clone();
+    let h3 = h1.clone();
+    if h2.is_closed() {
+      fail(rep, "closed_flipped", "MutRc<Option<S>>", "open handle reports closed".into());
+    }
+    h1.unsubscribe();
+    if !h2.is_closed() {
+      fail(rep, "handle_open_after_unsubscribe", "MutRc<Option<S>>", "remaining clone reports open after unsubscribe()".into());
+    }
+    h2.unsubscribe();
+    if log.marks(1, "child_unsub").len() != 1 {
+      fail(rep, "child_not_unsubscribed_once", "MutRc<Option<S>>", "two handles, one child unsubscription expected".into());
+    }
+    let _ = h3;
+    rep.events += log.len() as u64;
+  }
+  {
+    rep.evaluations += 1;
+    rep.count("direct_subscription_cases", 1);
+    rep.set("subscription_types_covered", "BoxSubscription");
+    let log = Log::new();
+    let f = Rc::new(Cell::new(false));
+    let b = BoxSubscription::new(Child { id: 1, log: log.clone(), closed: f.clone() });
+    if b.is_closed() {
+      fail(rep, "closed_flipped", "BoxSubscription", "boxed open child reports closed".into());
+    }
+    f.set(true);
+    if !b.is_closed() {
+      fail(rep, "handle_open_after_unsubscribe", "BoxSubscription", "boxed closed child reports open".into());
+    }
+    f.set(false);
+    b.unsubscribe();
+    if log.marks(1, "child_unsub").len() != 1 {
+      fail(rep, "child_not_unsubscribed_once", "BoxSubscription", "boxed unsubscribe must reach the child once".into());
+    }
+    rep.events += log.len() as u64;
   }
 }
